@@ -371,3 +371,35 @@ VARIANTS = [
     dict(property="C18", name="address-dependent-branch", file=SINC, expect="R-C18-ambient",
          old="        let mut idx = self.last_index;\n\n        let mut n = 0;", new="        let mut idx = self.last_index;\n        if (self.buffer.as_ptr() as usize) % 64 == 0 {\n            idx += 0.0;\n        }\n\n        let mut n = 0;"),
 ]
+
+
+# Behaviour-preserving edits: every listed check must stay silent (exit 0) on them.  `regex` edits are applied with re.sub.
+BENIGN = [
+    dict(name="rename-loop-locals-fast", file=FAST, properties=["C03", "C04", "C05", "C06", "C07", "C08", "C11", "C14"],
+         regex=[(r"\bidx\b", "pos"), (r"\bt_ratio\b", "step"), (r"\bt_ratio_end\b", "step_end"), (r"\bt_ratio_increment\b", "step_inc"), (r"\bend_idx\b", "limit"),
+                (r"\bapproximate_nbr_frames\b", "est_frames"), (r"\bneeded_len\b", "out_len"), (r"\bidx_floor\b", "pos_floor"), (r"\bstart_idx\b", "first"), (r"\bfrac_offset\b", "xf")]),
+    dict(name="rename-loop-locals-sinc", file=SINC, properties=["C01", "C03", "C04", "C05", "C06", "C07", "C11", "C14"],
+         regex=[(r"\bidx\b", "pos"), (r"\bt_ratio\b", "step"), (r"\bt_ratio_end\b", "step_end"), (r"\bt_ratio_increment\b", "step_inc"), (r"\bend_idx\b", "limit"),
+                (r"\bapproximate_nbr_frames\b", "est_frames"), (r"\bneeded_len\b", "out_len"), (r"\bfrac_offset\b", "xf"), (r"\boversampling_factor\b(?=\s+as|\s*=\s*self|;)", "oversampling_factor")]),
+    dict(name="rename-fft-locals", file=SYN, properties=["C04", "C05", "C07", "C10", "C11", "C14", "C02", "C01"],
+         regex=[(r"\bnbr_chunks_ready\b", "ready_blocks"), (r"\bfft_chunks\b", "blocks"), (r"\bnext_saved_frames\b", "total_saved"), (r"\bframes_in_used\b", "consumed"),
+                (r"\bprocessed_frames\b", "available"), (r"\bchunks_needed\b", "blocks_needed"), (r"\bwanted_subsize\b", "target_size"), (r"\bmin_chunk_in\b", "unit_in"), (r"\bmin_chunk_out\b", "unit_out")]),
+    dict(name="reset-statements-reordered", file=FAST, properties=["C10", "C06", "C03"],
+         edits=[("        self.channel_mask.iter_mut().for_each(|val| *val = true);\n        self.last_index = -(POLYNOMIAL_LEN_I / 2) as f64;\n        self.resample_ratio = self.resample_ratio_original;\n        self.target_ratio = self.resample_ratio_original;\n    }\n}\n\nimpl<T> FastFixedOut<T>",
+                 "        self.target_ratio = self.resample_ratio_original;\n        self.resample_ratio = self.resample_ratio_original;\n        self.last_index = -(POLYNOMIAL_LEN_I / 2) as f64;\n        self.channel_mask.iter_mut().for_each(|val| *val = true);\n    }\n}\n\nimpl<T> FastFixedOut<T>")]),
+    dict(name="reset-uses-fill", file=SYN, properties=["C10", "C09", "C11"],
+         edits=[("        self.overlaps\n            .iter_mut()\n            .for_each(|ch| ch.iter_mut().for_each(|s| *s = T::zero()));\n        self.channel_mask.iter_mut().for_each(|val| *val = true);\n    }\n}\n\nimpl<T> FftFixedOut<T>",
+                 "        for ch in self.overlaps.iter_mut() {\n            ch.fill(T::zero());\n        }\n        self.channel_mask.fill(true);\n    }\n}\n\nimpl<T> FftFixedOut<T>")]),
+    dict(name="ratio-bounds-hoisted-into-lets", file=SINC, properties=["C12", "C06"], count=2,
+         old="        if (new_ratio >= self.resample_ratio_original / self.max_relative_ratio)\n            && (new_ratio <= self.resample_ratio_original * self.max_relative_ratio)\n        {",
+         new="        let lowest = self.resample_ratio_original / self.max_relative_ratio;\n        let highest = self.resample_ratio_original * self.max_relative_ratio;\n        if new_ratio >= lowest && new_ratio <= highest {"),
+    dict(name="chunk-guard-as-range", file=SINC, properties=["C12"], count=2,
+         old="        if chunksize > self.max_chunk_size || chunksize == 0 {", new="        if !(1..=self.max_chunk_size).contains(&chunksize) {"),
+    dict(name="validate-count-checks-first", file=LIB, properties=["C13", "C11", "C03"],
+         edits=[("    if wave_out.len() != channels {\n        return Err(ResampleError::WrongNumberOfOutputChannels {\n            expected: channels,\n            actual: wave_out.len(),\n        });\n    }\n", ""),
+                ("    for (chan, wave_in) in wave_in.iter().enumerate().filter(|(chan, _)| mask[*chan]) {", "    if wave_out.len() != channels {\n        return Err(ResampleError::WrongNumberOfOutputChannels {\n            expected: channels,\n            actual: wave_out.len(),\n        });\n    }\n    for (chan, wave_in) in wave_in.iter().enumerate().filter(|(chan, _)| mask[*chan]) {")]),
+    dict(name="kernel-accumulators-renamed", file=SSE, properties=["C15", "C03"],
+         regex=[(r"\bacc0\b", "sum_a"), (r"\bacc1\b", "sum_b"), (r"\bw_idx\b", "wi"), (r"\bs_idx\b", "si"), (r"\btemp4\b", "t4")]),
+    dict(name="septic-coefficients-reassociated", file=FAST, properties=["C08"],
+         old="    let k0 = t!(5040.0) * d;", new="    let k0 = d * t!(5040.0);"),
+]
